@@ -490,4 +490,21 @@ theorem stubMatches_iff (c : Circ) (s : Sig) :
       simp [h1]
     · rw [← ho]; exact rowToType_replicate_matches _
 
+/-! ### sessions -/
+
+/-- without a cache the results are computed load by load from each load's own snapshot -/
+theorem runSession_false : ∀ (cache : ConvCache) (evs : List Event),
+    runSession false cache evs =
+      evs.filterMap fun | .load _ s => some (compileSnapshot s) | .other => none
+  | _, [] => rfl
+  | cache, .other :: evs => by simp [runSession, runSession_false cache evs]
+  | cache, .load obj s :: evs => by
+    simp [runSession, convertVia, compileSnapshot, runSession_false cache evs]
+
+theorem length_filterMap_loads : ∀ evs : List Event,
+    (evs.filterMap fun | .load _ s => some (compileSnapshot s) | .other => none).length = loadsIn evs
+  | [] => rfl
+  | .other :: evs => by simp [loadsIn, length_filterMap_loads evs]
+  | .load _ _ :: evs => by simp [loadsIn, length_filterMap_loads evs]
+
 end GuppyVerif.Pytket
